@@ -370,4 +370,62 @@ theorem outHash_order_independent (H : Bytes → Bytes) (xs ys : List Bytes) (h 
     cases xs <;> cases ys <;> simp_all
   rw [he, (sortBytes_eq_iff _ _).mpr (h.map H)]
 
+/-! ### digests of no-cache dependencies and of file contents -/
+
+/-- The output hash of a target that is not cached (`no-cache`, cache disabled) — the digest its dependants' keys carry —
+    is injective on multisets of (output definition, content digest): equal hashes ⇒ the two targets have the same outputs
+    with the same digests, up to order.  Each digest is tied to its length-framed definition, so two outputs that swap
+    contents, or a definition containing `,` or `:`, cannot make two different sets collide.  Hypotheses: digests are hex
+    (contain no `,`), the hash is collision-free on the two joined streams. -/
+theorem nocache_outHash_inj (H : Bytes → Bytes) (Occ : Bytes → Prop) (hH : ∀ x y, Occ x → Occ y → H x = H y → x = y)
+    (xs ys : List (Bytes × Bytes)) (hx : ∀ o ∈ xs, cComma ∉ o.2) (hy : ∀ o ∈ ys, cComma ∉ o.2)
+    (ho1 : Occ (joinComma (sortBytes (xs.map (fun o => nocacheElem o.1 o.2)))))
+    (ho2 : Occ (joinComma (sortBytes (ys.map (fun o => nocacheElem o.1 o.2)))))
+    (h : outHashNoCache H xs = outHashNoCache H ys) : xs.Perm ys := by
+  unfold outHashNoCache at h
+  have hj := hH _ _ ho1 ho2 h
+  -- the sorted element lists are themselves lists of elements of some pairs
+  have pre : ∀ (l : List (Bytes × Bytes)), (∀ o ∈ l, cComma ∉ o.2) →
+      ∃ l' : List (Bytes × Bytes), (∀ o ∈ l', cComma ∉ o.2) ∧ l'.map (fun o => nocacheElem o.1 o.2) = sortBytes (l.map (fun o => nocacheElem o.1 o.2)) ∧
+        l'.Perm l := by
+    intro l hl
+    -- sort the pairs by their element
+    refine ⟨l.mergeSort (fun a b => bytesLeH (nocacheElem a.1 a.2) (nocacheElem b.1 b.2)), ?_, ?_, List.mergeSort_perm _ _⟩
+    · intro o ho; exact hl o ((List.mergeSort_perm _ _).subset ho)
+    · unfold sortBytes
+      rw [List.map_mergeSort]
+      · intro a _ b _; rfl
+  obtain ⟨xs', hx', ex, px⟩ := pre xs hx
+  obtain ⟨ys', hy', ey, py⟩ := pre ys hy
+  rw [← ex, ← ey] at hj
+  have := joinComma_elems_inj xs' ys' hx' hy' hj
+  exact px.symm.trans (this ▸ py)
+
+/-- order of the outputs does not matter -/
+theorem nocache_outHash_order_independent (H : Bytes → Bytes) (xs ys : List (Bytes × Bytes)) (h : xs.Perm ys) :
+    outHashNoCache H xs = outHashNoCache H ys := by
+  unfold outHashNoCache
+  rw [(sortBytes_eq_iff _ _).mpr (h.map _)]
+
+/-- Regression witness for `6f6e2f5`: without the definition in each element (digests alone, sorted and joined) two outputs
+    that swap their contents leave the hash unchanged. -/
+theorem nocache_old_swap_witness (H : Bytes → Bytes) (d1 d2 : Bytes) :
+    H (joinComma (sortBytes ([(([111] : Bytes), d1), ([112], d2)].map Prod.snd))) =
+    H (joinComma (sortBytes ([(([111] : Bytes), d2), ([112], d1)].map Prod.snd))) := by
+  have : sortBytes [d1, d2] = sortBytes [d2, d1] := (sortBytes_eq_iff _ _).mpr (List.Perm.swap _ _ _)
+  simp [this]
+
+/-- File, blob and tree digests are the configured hash of exactly the content (`HashFile`, `HashBytes`, `HashString`):
+    equal digests ⇒ equal contents, on contents where the hash does not collide. -/
+theorem hashContent_inj (H : Bytes → Bytes) (Occ : Bytes → Prop) (hH : ∀ x y, Occ x → Occ y → H x = H y → x = y)
+    (a b : Bytes) (ha : Occ a) (hb : Occ b) (h : hashContent H a = hashContent H b) : a = b := hH a b ha hb h
+
+/-- non-vacuity: with the identity as (collision-free) hash, the two swapped states of the witness above are told apart -/
+example : outHashNoCache (fun x => x) [([111], [97]), ([112], [98])] ≠ outHashNoCache (fun x => x) [([111], [98]), ([112], [97])] := by
+  intro h
+  have hp := nocache_outHash_inj (fun x => x) (fun _ => True) (fun _ _ _ _ e => e) _ _
+    (by decide) (by decide) trivial trivial h
+  have : (([111], [97]) : Bytes × Bytes) ∈ [(([111] : Bytes), ([98] : Bytes)), ([112], [97])] := hp.subset (by simp)
+  revert this; decide
+
 end Grog.C09
